@@ -207,6 +207,8 @@ type Driver struct {
 	mergeDone    []chan event.MergeComplete
 	hungAtDelete bool
 	cur          Behaviour
+	actCtrs      []string // abstract fields present in the behaviour being replayed
+	actRegs      []string
 }
 
 func ctrFields(a string) []fieldSpec {
@@ -427,7 +429,7 @@ func (d *Driver) inputFor(ds *docState, st *Step, create bool) string {
 	if create {
 		parts = append(parts, fmt.Sprintf("tag: %q", ds.tag))
 	}
-	for _, a := range d.cfg.Ctrs {
+	for _, a := range d.actCtrs {
 		inc, ok := st.Cw[a]
 		if !ok || inc == NoW {
 			continue
@@ -441,7 +443,7 @@ func (d *Driver) inputFor(ds *docState, st *Step, create bool) string {
 			}
 		}
 	}
-	for _, a := range d.cfg.Regs {
+	for _, a := range d.actRegs {
 		v, ok := st.Rw[a]
 		if !ok || v == NoW {
 			continue
@@ -498,6 +500,19 @@ func maxVal(b Behaviour) int {
 func (d *Driver) Replay(bi int, b Behaviour) {
 	d.serial++
 	d.cur = b
+	d.actCtrs, d.actRegs = nil, nil
+	if len(b) > 0 {
+		for _, a := range d.cfg.Ctrs {
+			if _, ok := b[0].Obs.Ctr[a]; ok {
+				d.actCtrs = append(d.actCtrs, a)
+			}
+		}
+		for _, a := range d.cfg.Regs {
+			if _, ok := b[0].Obs.RegAllowed[a]; ok {
+				d.actRegs = append(d.actRegs, a)
+			}
+		}
+	}
 	ds := &docState{
 		tag:       fmt.Sprintf("t-%d-%d-%d", d.cfg.Seed, d.serial, d.rng.Int63()),
 		cids:      map[int]cid.Cid{},
@@ -570,10 +585,10 @@ func (d *Driver) recordLinks(bi, si int, ds *docState, n *cluster.Node, c int, c
 			}
 		}
 	}
-	for _, a := range d.cfg.Ctrs {
+	for _, a := range d.actCtrs {
 		group(a, d.ctrF[a])
 	}
-	for _, a := range d.cfg.Regs {
+	for _, a := range d.actRegs {
 		group(a, d.regF[a])
 	}
 	return true
@@ -773,7 +788,7 @@ func (d *Driver) cidSet(ds *docState, ids []int) []string {
 // compareDocRow checks a query row against a predicted observation. where describes the read.
 func (d *Driver) compareDocRow(prop string, bi, si int, ds *docState, where string, row map[string]any, o *Obs) {
 	d.res.Comparisons++
-	for _, a := range d.cfg.Ctrs {
+	for _, a := range d.actCtrs {
 		for _, f := range d.ctrF[a] {
 			want := float64(f.Scale*o.Ctr[a] + f.Shift*o.Nw[a])
 			if f.Float {
@@ -791,7 +806,7 @@ func (d *Driver) compareDocRow(prop string, bi, si int, ds *docState, where stri
 			}
 		}
 	}
-	for _, a := range d.cfg.Regs {
+	for _, a := range d.actRegs {
 		for _, f := range d.regF[a] {
 			got := row[f.Name]
 			okAny := false
@@ -1139,14 +1154,14 @@ func (d *Driver) checkDAG(bi, si int, ds *docState, ni int, o *Obs) {
 		if st == nil || fieldCid[c] == nil {
 			continue
 		}
-		for _, a := range d.cfg.Ctrs {
+		for _, a := range d.actCtrs {
 			if v, ok := st.Cw[a]; ok && v != NoW {
 				for _, f := range d.ctrF[a] {
 					check(c, a, f)
 				}
 			}
 		}
-		for _, a := range d.cfg.Regs {
+		for _, a := range d.actRegs {
 			if v, ok := st.Rw[a]; ok && v != NoW {
 				for _, f := range d.regF[a] {
 					check(c, a, f)
@@ -1155,7 +1170,7 @@ func (d *Driver) checkDAG(bi, si int, ds *docState, ni int, o *Obs) {
 		}
 	}
 	// field heads reported by the API = maximal merged writes of that field
-	for _, a := range append(append([]string{}, d.cfg.Ctrs...), d.cfg.Regs...) {
+	for _, a := range append(append([]string{}, d.actCtrs...), d.actRegs...) {
 		fs := d.ctrF[a]
 		if fs == nil {
 			fs = d.regF[a]
